@@ -34,7 +34,7 @@ def main():
                 "level_claimed": {
                     "category": "model_checking",
                     "text": c["text"],
-                    "design_ref": c.get("design_ref", "DESIGN.md section 6, " + pid),
+                    "design_ref": c.get("design_ref", "DESIGN.md section 5, " + pid),
                 },
                 "level_note": c["note"],
                 "technique": c.get("technique", "bounded symbolic execution of the real code's go/ssa form; every branch, implicit-panic site and harness assertion decided by z3 (SMT, bit-vectors) for all values within the stated bounds; counterexamples replayed natively"),
